@@ -118,6 +118,40 @@ def run(ctx):
         st["hist"]["failing_dirs_%d" % min(len(failing), 3)] += 1
         if len(st["samples"]) < 2 and failing and len(rows) < 12:
             st["samples"].append({"argv": [j["q"]], "uid": NOBODY, "rows": rows, "stderr": err[:200], "status": r["status"]})
+    # ---- (1a') the same fault trees through the other result paths: ordered buffer, single aggregate row, grouped rows ----
+    pj = []
+    for j in jobs[:: (6 if ctx.tier == "quick" else 1)]:
+        rb = os.path.basename(j["root"])
+        opt = (" maxdepth %d" % j["mx"] if j["mx"] else "") + (" dfs" if j["dfs"] else "")
+        pj.append((j, "ordered", "path from %s%s order by path desc into list" % (rb, opt)))
+        pj.append((j, "aggregate", "count(*), max(length(name)) from %s%s into list" % (rb, opt)))
+        pj.append((j, "grouped", "is_dir, count(*) from %s%s group by is_dir order by is_dir into list" % (rb, opt)))
+
+    def pone(x):
+        return ctx.impl.rows([x[2]], cwd=ctx.scratch, user=NOBODY)
+
+    for (j, kind, q), r in zip(pj, pmap(pone, pj)):
+        st["evaluations"] += 1
+        vals = [v.decode("utf-8", "surrogateescape") for v in r["values"]]
+        err = r["stderr"].decode("utf-8", "replace")
+        rb = os.path.basename(j["root"])
+        ref = walklib.ref_listing(j["obs"], rb, 0, j["mx"])
+        failing = [p_ for d_, p_, n_ in ref if n_["kind"] == "dir" and not n_.get("listable", True) and (j["mx"] == 0 or d_ < j["mx"])]
+        case = {"tree": j["root"], "argv": [q], "uid": NOBODY, "result_path": kind}
+        if kind == "ordered":
+            want = sorted((p_ for _, p_, _ in ref), reverse=True)
+        elif kind == "aggregate":
+            want = [str(len(ref)), str(max([len(n_["name"]) for _, _, n_ in ref] or [0]))] if ref else None
+        else:
+            nd_ = sum(1 for _, _, n_ in ref if n_["kind"] == "dir")
+            want = [x for k_, c_ in (("false", len(ref) - nd_), ("true", nd_)) if c_ for x in (k_, str(c_))]
+        if want is not None and vals != want:
+            ctx.violation("impl-violates-spec", "%s result path over a tree with unlistable directories: got %s, the entries outside them give %s" % (kind, vals[:10], want[:10]), input=case)
+        elif r["status"] != (1 if failing else 0) or any(p_ not in err for p_ in failing) or err.count("os error") != len(failing):
+            ctx.violation("impl-violates-spec", "%s result path: status %s / stderr %r for %d unlistable directories" % (kind, r["status"], err[:200], len(failing)), input=case)
+        else:
+            st["agreed"] += 1
+            st["hist"]["path_" + kind] += 1
     # ---- (1b) the failing directory is itself a search root (mode 000 for uid 65534, or not a directory at all) ----
     rjobs = []
     for t in range(12 if ctx.tier == "quick" else 150):
@@ -207,7 +241,7 @@ def run(ctx):
     # ---- (2) unreadable files / dangling links: only their own content columns are empty ----
     for j in jobs[::2][: (8 if ctx.tier == "quick" else 150)]:
         st["evaluations"] += 1
-        cols = "path, size, sha1, line_count, is_shebang"
+        cols = "path, size, sha1, line_count, is_shebang, contains('line')"
         rows, r = qlib.select(ctx.impl, cols, "from %s where is_file = true or is_symlink = true" % os.path.basename(j["root"]), cwd=ctx.scratch, user=NOBODY)
         case = {"tree": j["root"], "query": r["query"], "uid": NOBODY}
         if rows is None:
@@ -216,7 +250,7 @@ def run(ctx):
         byp = {p: n for _, p, n in walklib.ref_listing(j["obs"], os.path.basename(j["root"]), 0, 0)}
         bad = False
         n_unreadable = 0
-        for path, size, sha1, lc, sheb in rows:
+        for path, size, sha1, lc, sheb, cont in rows:
             n = byp.get(path)
             if n is None:
                 continue
@@ -233,12 +267,17 @@ def run(ctx):
                 break
             if readable:
                 data = open(n["path"], "rb").read()
-                exp = (hashlib.sha1(data).hexdigest(), str(data.count(b"\n")), "true" if data[:2] == b"#!" else "false")
+                try:
+                    ctext = data.decode("utf-8")
+                    cexp = "true" if "line" in ctext else "false"
+                except UnicodeDecodeError:
+                    cexp = ""
+                exp = (hashlib.sha1(data).hexdigest(), str(data.count(b"\n")), "true" if data[:2] == b"#!" else "false", cexp)
             else:
-                exp = ("", "", "false")
+                exp = ("", "", "false", "")
                 n_unreadable += 1
-            if (sha1, lc, sheb) != exp:
-                ctx.violation("impl-violates-spec", "content columns of %s (%s) are %s, expected %s" % (path, "readable" if readable else "unreadable", (sha1[:12], lc, sheb), (exp[0][:12], exp[1], exp[2])), input=case)
+            if (sha1, lc, sheb, cont) != exp:
+                ctx.violation("impl-violates-spec", "content columns of %s (%s) are %s, expected %s" % (path, "readable" if readable else "unreadable", (sha1[:12], lc, sheb, cont), (exp[0][:12], exp[1], exp[2], exp[3])), input=case)
                 bad = True
                 break
         if not bad:
